@@ -88,7 +88,8 @@ PROPS = {
     "C10": cluster_only(["C10"], STABILISE_PROFILES, component="RN", rule_extra=STABILISE_RULE),
     "C16": cluster(["C16"], ["bump", "campaign"], [], extra_profiles=LOCKSTEP_PROFILES, component="RN", rule_extra=LOCKSTEP_RULE),
     "C17": cluster(["C17"], [], [], component="RN"),
-    "C02": cluster(["C02"], ["*"], ["role", "vote"], component="RN"),
+    # "one vote per term, ever" also rests on RawNode's persistence flags (must_sync, release classification): RawNode tie too
+    "C02": cluster(["C02"], ["*"], ["role", "vote"], component=["RN", "C07"]),
     "C03": cluster(["C03"], ["*"], ["vote"], component="RN"),
     "C04": cluster(["C04"], ["*"], ["commit"], component="RN"),
     "C05": cluster(["C05"], ["*"], ["log"], component="RN"),
